@@ -272,7 +272,23 @@ fn run_typed<T: Item>(ctx: &mut Ctx, case: &Json) {
         let mut last_err = 0;
         let mut n_purges = 0u64;
         let every = (n / 12).max(1);
+        // a fifth of the sketches are reset somewhere along their stream and reused: a reset sketch is a new sketch
+        let reset_at = if rng.chance(0.2) && n > 0 { Some(rng.usize(0, n - 1)) } else { None };
         for (j, &(i, w)) in stream.iter().enumerate() {
+            if reset_at == Some(j) {
+                let had_error = sk.maximum_error() > 0;
+                sk.reset();
+                model = FiModel::new(size);
+                last_err = 0;
+                ctx.cover(if had_error { "reset_after_purge" } else { "reset_before_any_purge" });
+                check_fi(ctx, &sk, &model, &items, &format!("sketch {} size {} shape {} right after reset() at op {}", si, size, shape, j), &mut rng);
+                if sk.maximum_error() != 0 || sk.total_weight() != 0 || sk.num_active_items() != 0 || !sk.is_empty() {
+                    ctx.violation(
+                        "reset() does not give back an empty sketch",
+                        format!("size {} after reset at op {}: maximum_error {} total {} active {}", size, j, sk.maximum_error(), sk.total_weight(), sk.num_active_items()),
+                    );
+                }
+            }
             if w == 1 && rng.chance(0.5) {
                 sk.update(items[i as usize].clone());
             } else {
